@@ -73,6 +73,29 @@ def match_known(pid, unit, f, kf):
     return None
 
 
+_kf_cache = {}
+
+
+def known_still_fails(k):
+    """a recorded finding suppresses its obligation only while its stored witness still fails on the real code"""
+    rp = k.get('replay')
+    if not rp:
+        return True
+    key = json.dumps(rp, sort_keys=True)
+    if key not in _kf_cache:
+        try:
+            from . import replayrun
+            r = replayrun.run(rp['mode'], rp['input'], timeout=60)
+            fw = rp.get('fails_when', {})
+            ok = all(r.get(a) == b for a, b in fw.items() if a != 'result')
+            for a, b in fw.get('result', {}).items():
+                ok = ok and str((r.get('result') or {}).get(a)) == str(b)
+            _kf_cache[key] = ok
+        except Exception:
+            _kf_cache[key] = True
+    return _kf_cache[key]
+
+
 def write_replay(pid, unit, f, r, witness=None):
     os.makedirs(os.path.join(VERIF, 'replays'), exist_ok=True)
     h = hashlib.sha1((unit + f['obligation'] + f['text']).encode()).hexdigest()[:10]
@@ -118,7 +141,7 @@ def run_property(pid, tier, seed):
             if not relevant(pid, f):
                 continue
             k = match_known(pid, u, f, kf)
-            if k is not None:
+            if k is not None and known_still_fails(k):
                 known.append((u, f, k))
                 continue
             if f['fn'] in bfns or not b:
